@@ -626,3 +626,444 @@ Proof.
   - eapply advance_inv; eauto.
   - cbn in H. injection H as <- <-. cbn. rewrite app_nil_r. exact I.
 Qed.
+
+
+(* ---------------------------------------------------------------------------------------------- *)
+(* the three actions in which run() executes: what the state looks like while it scans *)
+
+Definition runs_loop (a : saction) : bool :=
+  match a with SInit | SGetDone None | SChildEnd => true | _ => false end.
+
+Definition cursor (c : mq_cfg) (s : mq) : list (Z * nat) :=
+  match mpc s with PGet _ rem => rem | PChild rem => rem | _ => pass c end.
+
+Lemma resume_site c ins outs s a s' o :
+  Inv c ins outs s -> mq_act c s a = Some (s', o) -> runs_loop a = true ->
+  exists s0, Core c ins outs s0 /\ Mid s0 /\ resume c s0 (cursor c s) = Some (s', o) /\
+             mstores s0 = mstores s /\ mnow s0 = mnow s /\ mqc s0 = mqc s /\ mtotal s0 = mtotal s /\
+             (forall g rem, mpc s <> PGet g rem).
+Proof.
+  intros [C Sh] H Ra. destruct a as [p| |[f|]|[f|]| | | |t|incl]; try discriminate; cbn in H.
+  - destruct (mpc s) eqn:P; try discriminate. exists s. unfold cursor. rewrite P.
+    split; [exact C|]. split.
+    { apply (mid_of s s Sh); auto; try (rewrite P; discriminate).
+      pose proof (i_child _ Sh) as Hc. rewrite P in Hc. exact Hc. }
+    split; [exact H|]. do 4 (split; [reflexivity|]). discriminate.
+  - destruct (mpc s) eqn:P; try discriminate.
+    destruct (sq_take (mtok s)) as [[x q]|] eqn:T; [|discriminate].
+    apply sq_take_inv in T as (Gx & Ei & Ep & Gq).
+    exists (with_tok s q). unfold cursor. rewrite P.
+    split. { apply core_tok; [assumption| |]; intros W; congruence. }
+    split.
+    { constructor; cbn.
+      - pose proof (i_child _ Sh) as Hc. rewrite P in Hc. exact Hc.
+      - intros g. pose proof (i_getf _ Sh g) as Hg. destruct (get (mstores s g)); [reflexivity|destruct Hg|].
+        destruct Hg as (rem & E). congruence.
+      - exact Gq. }
+    split; [exact H|]. do 4 (split; [reflexivity|]). discriminate.
+  - destruct (mchild s) eqn:Ch; try discriminate.
+    destruct (mpc s) as [| |rem| |] eqn:P; try discriminate.
+    exists (with_child s CNone (PChild rem)). unfold cursor. rewrite P.
+    split.
+    { apply (core_ext c ins outs s _ C); [| |intros; reflexivity|intros; reflexivity|reflexivity|reflexivity|].
+      * cbn. rewrite (i_cur _ _ _ _ C), Ch. reflexivity.
+      * intros g. unfold held_flow, child_pkts. cbn. rewrite Ch. reflexivity.
+      * intros p0 dl E. cbn in E. discriminate. }
+    split.
+    { constructor; cbn.
+      - reflexivity.
+      - intros g. pose proof (i_getf _ Sh g) as Hg. destruct (get (mstores s g)); [reflexivity|destruct Hg|].
+        destruct Hg as (rem' & E). congruence.
+      - apply (i_tokpc _ Sh). rewrite P. discriminate. }
+    split; [exact H|]. do 4 (split; [reflexivity|]). discriminate.
+Qed.
+
+(* the actions that do not run the loop leave the cursor alone and visit nothing *)
+Lemma other_site c s a s' o :
+  mq_act c s a = Some (s', o) -> runs_loop a = false ->
+  cursor c s' = cursor c s /\ (forall f b, ~ In (OVisit f b) o) /\ (mpc s' = PSpin -> mpc s = PSpin).
+Proof.
+  assert (NV1 : forall (x : sout), (forall f b, x <> OVisit f b) -> forall f b, ~ In (OVisit f b) [x]).
+  { intros x Hx f b [E|[]]. eapply Hx; eauto. }
+  intros H Ra. destruct a as [p| |[f|]|[f|]| | | |t|incl]; try discriminate; cbn in H.
+  - destruct (memZ (flow p) (flows c) && (0 <=? psize p)%Z); [|discriminate]. injection H as <- <-.
+    split; [reflexivity|split; [intros f b []|auto]].
+  - destruct (sq_cb fifo_pop (mstores s f)); [|discriminate]. injection H as <- <-.
+    split; [reflexivity|split; [intros f0 b []|auto]].
+  - destruct (sq_cb fifo_pop (mtok s)); [|discriminate]. injection H as <- <-.
+    split; [reflexivity|split; [intros f0 b []|auto]].
+  - destruct (mpc s) as [|g rem|rem| |] eqn:P; try discriminate. destruct (mchild s); try discriminate.
+    destruct (f =? g)%Z; [|discriminate]. destruct (sq_take (mstores s f)) as [[[a p] q]|]; [|discriminate].
+    injection H as <- <-. unfold cursor; cbn. rewrite P.
+    split; [reflexivity|split; [intros f0 b []|discriminate]].
+  - destruct (mchild s); try discriminate. injection H as <- <-.
+    split; [reflexivity|split; [apply NV1; discriminate|auto]].
+  - destruct (mchild s); try discriminate. destruct (Qeq_bool dl (mnow s)); [|discriminate]. injection H as <- <-.
+    split; [reflexivity|split; [apply NV1; discriminate|auto]].
+  - destruct (urgent c s); [discriminate|]. destruct (Qlt_le_dec (mnow s) t); [|discriminate].
+    assert (E : exists s1, Some (s1, @nil sout) = Some (s', o) /\ mpc s1 = mpc s).
+    { destruct (mchild s); try (eexists; split; [exact H|reflexivity]).
+      destruct (Qle_bool t dl); [|discriminate]. eexists; split; [exact H|reflexivity]. }
+    destruct E as (s1 & E & P1). injection E as <- <-.
+    unfold cursor. rewrite P1. split; [reflexivity|split; [intros f0 b []|congruence]].
+  - injection H as <- <-. split; [reflexivity|split; [apply NV1; discriminate|auto]].
+Qed.
+
+(* ---------------------------------------------------------------------------------------------- *)
+(* executions *)
+
+Definition tr_puts (tr : list tev) : list pkt := flat_map (fun e => puts (snd (fst e))) tr.
+Definition tr_fwds (tr : list tev) : list pkt := flat_map (fun e => forwards (snd e)) tr.
+Definition reachable (c : mq_cfg) (s : mq) : Prop := exists acts tr, mq_run c (mq0 c) acts = Some (s, tr).
+
+(* every allowance positive (SP: all priorities > 0; WRR: all weights > 0), rate positive *)
+Definition cfg_ok (c : mq_cfg) : Prop := 0 < rate c /\ forall f n, In (f, n) (pass c) -> (0 < n)%nat.
+
+Lemma inv0 c : Inv c [] [] (mq0 c).
+Proof.
+  split.
+  - constructor.
+    + reflexivity.
+    + intros f. reflexivity.
+    + intros f. reflexivity.
+    + intros f. reflexivity.
+    + cbn. induction (dflows c) as [|x l IH]; cbn; [reflexivity|exact IH].
+    + intros p [].
+    + apply sq_nostrand_init.
+    + intros H. discriminate.
+    + intros p dl H. discriminate.
+  - constructor.
+    + reflexivity.
+    + intros g. exact I.
+    + intros f rem H. discriminate.
+    + split; [discriminate|reflexivity].
+Qed.
+
+Lemma inv_run c : 0 < rate c -> forall acts s ins outs s' tr,
+  Inv c ins outs s -> mq_run c s acts = Some (s', tr) -> Inv c (ins ++ tr_puts tr) (outs ++ tr_fwds tr) s'.
+Proof.
+  intros R. induction acts as [|a rest IH]; intros s ins outs s' tr I H; cbn in H.
+  - injection H as <- <-. cbn. rewrite !app_nil_r. exact I.
+  - destruct (mq_act c s a) as [[s1 o]|] eqn:A; [|discriminate].
+    destruct (mq_run c s1 rest) as [[s2 tr']|] eqn:Rn; [|discriminate]. injection H as <- <-.
+    unfold tr_puts, tr_fwds. cbn [flat_map fst snd]. rewrite !app_assoc.
+    apply (IH s1); [|exact Rn]. eapply inv_step; eauto.
+Qed.
+
+Lemma reachable_inv c s : 0 < rate c -> reachable c s -> exists ins outs, Inv c ins outs s.
+Proof.
+  intros R (acts & tr & H). exists (tr_puts tr), (tr_fwds tr).
+  apply (inv_run c R acts (mq0 c) [] [] s tr (inv0 c) H).
+Qed.
+
+Lemma run_app c acts1 : forall s acts2 s2 tr,
+  mq_run c s (acts1 ++ acts2) = Some (s2, tr) ->
+  exists s1 tr1 tr2, mq_run c s acts1 = Some (s1, tr1) /\ mq_run c s1 acts2 = Some (s2, tr2) /\ tr = tr1 ++ tr2.
+Proof.
+  induction acts1 as [|a t IH]; intros s acts2 s2 tr H; cbn in H.
+  - exists s, [], tr. auto.
+  - destruct (mq_act c s a) as [[s1 o]|] eqn:A; [|discriminate].
+    destruct (mq_run c s1 (t ++ acts2)) as [[s3 tr']|] eqn:Rn; [|discriminate]. injection H as <- <-.
+    destruct (IH _ _ _ _ Rn) as (sa & tr1 & tr2 & R1 & R2 & ->).
+    exists sa, ((mnow s1, a, o) :: tr1), tr2. cbn. rewrite A, R1. auto.
+Qed.
+
+Lemma run_snoc c acts a s s' o tr :
+  mq_run c (mq0 c) acts = Some (s, tr) -> mq_act c s a = Some (s', o) ->
+  mq_run c (mq0 c) (acts ++ [a]) = Some (s', tr ++ [(mnow s', a, o)]).
+Proof.
+  revert tr. generalize (mq0 c). induction acts as [|b t IH]; intros s0 tr H A; cbn in *.
+  - injection H as <- <-. rewrite A. reflexivity.
+  - destruct (mq_act c s0 b) as [[s1 o1]|]; [|discriminate].
+    destruct (mq_run c s1 t) as [[s2 tr2]|] eqn:Rn; [|discriminate]. injection H as <- <-.
+    rewrite (IH s1 tr2 Rn A). reflexivity.
+Qed.
+
+Lemma reachable_step c s a s' o : reachable c s -> mq_act c s a = Some (s', o) -> reachable c s'.
+Proof. intros (acts & tr & H) A. exists (acts ++ [a]), (tr ++ [(mnow s', a, o)]). eapply run_snoc; eauto. Qed.
+
+(* induction principle over reachable states *)
+Lemma reachable_ind' c (P : mq -> Prop) :
+  P (mq0 c) -> (forall s a s' o, reachable c s -> P s -> mq_act c s a = Some (s', o) -> P s') ->
+  forall s, reachable c s -> P s.
+Proof.
+  intros P0 Pst s (acts & tr & H). revert s tr H.
+  induction acts as [|a t IH] using rev_ind; intros s tr H.
+  - cbn in H. injection H as <- <-. exact P0.
+  - apply run_app in H as (s1 & tr1 & tr2 & R1 & R2 & ->). cbn in R2.
+    destruct (mq_act c s1 a) as [[s2 o]|] eqn:A; [|discriminate]. injection R2 as <- <-.
+    eapply Pst; [exists t, tr1; exact R1|eapply IH; eauto|exact A].
+Qed.
+
+(* ---------------------------------------------------------------------------------------------- *)
+(* the loop never spins: with positive allowances a pass started with packets counted finds one *)
+
+Lemma resume_no_spin c ins outs s rem s' vs :
+  cfg_ok c -> Core c ins outs s -> Mid s -> resume c s rem = Some (s', vs) -> mpc s' <> PSpin.
+Proof.
+  intros [R Pos] C M H. unfold resume in H.
+  destruct (scan (nonempty c s) rem) as [vs0 [[f rem']|]] eqn:Sc.
+  - unfold commit in H. destruct (sq_get fifo_pop (mstores s f)); [|discriminate]. injection H as <- <-. discriminate.
+  - destruct (end_pass c s) as [[s1 vs1]|] eqn:E; [|discriminate]. injection H as <- <-.
+    unfold end_pass in E. destruct (Z.eqb_spec (mtotal s) 0) as [T|T].
+    + destruct (sq_get fifo_pop (mtok s)); [|discriminate]. injection E as <- <-. discriminate.
+    + destruct (scan (nonempty c s) (pass c)) as [vs2 [[f rem']|]] eqn:Sc2.
+      * unfold commit in E. destruct (sq_get fifo_pop (mstores s f)); [|discriminate]. injection E as <- <-. discriminate.
+      * exfalso. pose proof (total_nonneg _ _ _ _ C) as T0.
+        destruct (zsum_pos (mqc s) (dflows c)) as (f & Hf & Pf).
+        { intros g _. eapply qc_nonneg; eauto. }
+        { rewrite <- (i_tot _ _ _ _ C). lia. }
+        apply dflows_in in Hf. unfold flows in Hf. apply in_map_iff in Hf as ([f' n] & E1 & Hin). cbn in E1. subst f'.
+        destruct (scan_none _ _ _ Sc2 f n Hin) as [N0|Tf].
+        -- specialize (Pos f n Hin). lia.
+        -- rewrite (nonempty_spec c ins outs s f C M) in Tf.
+           rewrite (i_qc _ _ _ _ C f), (mid_held s f M), map_length in Pf.
+           destruct (items (mstores s f)); [cbn in Pf; lia|discriminate].
+Qed.
+
+Theorem never_spins c s : cfg_ok c -> reachable c s -> mpc s <> PSpin.
+Proof.
+  intros Ok Rs. revert s Rs. apply reachable_ind'.
+  - discriminate.
+  - intros s a s' o Rs IH A. destruct (reachable_inv c s (proj1 Ok) Rs) as (ins & outs & I).
+    destruct (runs_loop a) eqn:Ra.
+    + destruct (resume_site c ins outs s a s' o I A Ra) as (s0 & C0 & M0 & Rsm & _).
+      eapply resume_no_spin; eauto.
+    + intros E. apply IH. eapply (other_site c s a s' o A Ra). exact E.
+Qed.
+
+(* ---------------------------------------------------------------------------------------------- *)
+(* work conservation: whenever the clock may move, a transmission is in progress or nothing is held *)
+
+Lemma quiet_transmitting_or_empty c ins outs s :
+  Inv c ins outs s -> mpc s <> PSpin -> urgent c s = false ->
+  (exists p dl, mchild s = CTx p dl /\ mcur s = Some p /\ mnow s < dl) \/ (forall f, held_flow s f = []).
+Proof.
+  intros [C Sh] NS U. unfold urgent in U.
+  apply orb_false_iff in U as [U Uch]. apply orb_false_iff in U as [U Ust]. apply orb_false_iff in U as [Upc Utok].
+  destruct (mpc s) as [|f rem|rem| |] eqn:P; try discriminate.
+  - (* PGet: the granted get is due now *)
+    exfalso. destruct (i_pget _ Sh f rem P) as (x & Gx).
+    assert (Hf : In f (flows c)).
+    { destruct (held_in_ins c ins outs s f (snd x) C) as [Fx Hin].
+      - unfold held_flow. apply in_or_app. right. unfold sq_held. rewrite Gx. left. reflexivity.
+      - rewrite <- Fx. apply (i_ins _ _ _ _ C _ Hin). }
+    assert (E : existsb (fun f0 => sq_urgent (mstores s f0)) (flows c) = true).
+    { apply existsb_exists. exists f. split; [exact Hf|]. unfold sq_urgent. rewrite Gx. apply orb_true_r. }
+    congruence.
+  - (* PChild *)
+    pose proof (i_child _ Sh) as Hc. rewrite P in Hc. unfold child_urgent in Uch.
+    destruct (mchild s) as [|p|p dl|] eqn:Ch; try discriminate; [contradiction|].
+    left. exists p, dl. split; [reflexivity|]. split; [rewrite (i_cur _ _ _ _ C), Ch; reflexivity|].
+    pose proof (i_dl _ _ _ _ C p dl Ch) as Le.
+    destruct (Qlt_le_dec (mnow s) dl) as [Lt|Ge]; [exact Lt|].
+    exfalso. assert (Eq : dl == mnow s) by (apply Qle_antisym; assumption).
+    apply Qeq_bool_iff in Eq. congruence.
+  - (* PTok *)
+    right. pose proof (i_child _ Sh) as Hc. rewrite P in Hc.
+    apply sq_urgent_false in Utok as [Pz Ng].
+    assert (T0 : mtotal s = 0%Z).
+    { pose proof (total_nonneg _ _ _ _ C) as T0. destruct (Z.eq_dec (mtotal s) 0) as [|N]; [assumption|]. exfalso.
+      destruct (get (mtok s)) as [| |x] eqn:G.
+      - apply (i_tokpc _ Sh) in G. apply G. exact P.
+      - assert (Hi : items (mtok s) <> []) by (apply (i_tokwake _ _ _ _ C); [exact G|lia]).
+        pose proof (i_tokns _ _ _ _ C G Hi). lia.
+      - apply (Ng x). reflexivity. }
+    intros f.
+    destruct (in_dec Z.eq_dec f (flows c)) as [Hf|Hf].
+    + assert (Q0 : mqc s f = 0%Z).
+      { apply (zsum_zero (mqc s) (dflows c)); [intros g _; eapply qc_nonneg; eauto|rewrite <- (i_tot _ _ _ _ C); exact T0|apply dflows_in; exact Hf]. }
+      rewrite (i_qc _ _ _ _ C f) in Q0. destruct (held_flow s f); [reflexivity|cbn in Q0; lia].
+    + destruct (held_flow s f) as [|p l] eqn:Hh; [reflexivity|]. exfalso. apply Hf.
+      destruct (held_in_ins c ins outs s f p C) as [Fp Hin]; [rewrite Hh; left; reflexivity|].
+      rewrite <- Fp. apply (i_ins _ _ _ _ C _ Hin).
+  - contradiction.
+Qed.
+
+Theorem work_conserving c s t r :
+  cfg_ok c -> reachable c s -> mq_act c s (SAdvance t) = Some r ->
+  (exists p dl, mchild s = CTx p dl /\ mcur s = Some p /\ mnow s < dl) \/ (forall f, held_flow s f = []).
+Proof.
+  intros Ok Rs A. destruct (reachable_inv c s (proj1 Ok) Rs) as (ins & outs & I).
+  apply (quiet_transmitting_or_empty c ins outs s I (never_spins c s Ok Rs)).
+  cbn in A. destruct (urgent c s); [discriminate|reflexivity].
+Qed.
+
+(* a state in which nothing of the scheduler is enabled and no deadline is pending holds nothing *)
+Theorem drained c s :
+  cfg_ok c -> reachable c s -> urgent c s = false -> (forall p dl, mchild s <> CTx p dl) ->
+  (forall f, held_flow s f = []) /\ (forall f, mqc s f = 0%Z /\ mqb s f = 0%Z) /\ mcur s = None.
+Proof.
+  intros Ok Rs U Nd. destruct (reachable_inv c s (proj1 Ok) Rs) as (ins & outs & I).
+  destruct (quiet_transmitting_or_empty c ins outs s I (never_spins c s Ok Rs) U) as [(p & dl & E & _)|He].
+  - exfalso. eapply Nd; eauto.
+  - destruct I as [C Sh]. split; [exact He|]. split.
+    + intros f. rewrite (i_qc _ _ _ _ C f), (i_qb _ _ _ _ C f), He. split; reflexivity.
+    + rewrite (i_cur _ _ _ _ C). destruct (mchild s) eqn:Ch; try reflexivity. exfalso. eapply Nd; eauto.
+Qed.
+
+
+(* ---------------------------------------------------------------------------------------------- *)
+(* one transmission at a time, of exactly 8*size/rate, never aborted *)
+
+Definition starts (l : list sout) : list pkt := flat_map (fun o => match o with OStart p => [p] | _ => [] end) l.
+Definition child_tx (s : mq) : option (pkt * Q) := match mchild s with CTx p dl => Some (p, dl) | _ => None end.
+
+(* every entry of a timed trace either starts a transmission (only when none is in progress), or ends the one in
+   progress -- the very packet that was started, exactly at start + 8*size/rate --, or does neither, and then the
+   clock has not passed the end of the transmission in progress *)
+Fixpoint tx_wf (c : mq_cfg) (cur : option (pkt * Q)) (tr : list tev) : Prop :=
+  match tr with
+  | [] => True
+  | (t, a, outs) :: r =>
+      match starts outs, forwards outs with
+      | [p], [] => cur = None /\ tx_wf c (Some (p, t + tx_time c p)) r
+      | [], [p] => (exists dl, cur = Some (p, dl) /\ dl == t) /\ tx_wf c None r
+      | [], [] => match cur with Some (_, dl) => t <= dl | None => True end /\ tx_wf c cur r
+      | _, _ => False
+      end
+  end.
+
+Lemma resume_child c s rem s' o : resume c s rem = Some (s', o) -> mchild s' = mchild s.
+Proof.
+  unfold resume, end_pass, commit.
+  destruct (scan (nonempty c s) rem) as [vs0 [[f rem']|]].
+  - destruct (sq_get fifo_pop (mstores s f)); [|discriminate]. intros H; injection H as <- <-. reflexivity.
+  - destruct (mtotal s =? 0)%Z.
+    + destruct (sq_get fifo_pop (mtok s)); [|discriminate]. intros H; injection H as <- <-. reflexivity.
+    + destruct (scan (nonempty c s) (pass c)) as [vs1 [[f rem']|]].
+      * destruct (sq_get fifo_pop (mstores s f)); [|discriminate]. intros H; injection H as <- <-. reflexivity.
+      * intros H; injection H as <- <-. reflexivity.
+Qed.
+
+Lemma starts_visits vs : (forall o, In o vs -> exists f b, o = OVisit f b) -> starts vs = [].
+Proof.
+  induction vs as [|o t IH]; intros H; [reflexivity|]. unfold starts in *. cbn.
+  destruct (H o (or_introl eq_refl)) as (f & b & ->). cbn. apply IH. intros; apply H; right; auto.
+Qed.
+
+Lemma tx_step c ins outs s a s' o :
+  0 < rate c -> Inv c ins outs s -> mq_act c s a = Some (s', o) ->
+  (exists p, starts o = [p] /\ forwards o = [] /\ child_tx s = None /\ child_tx s' = Some (p, mnow s' + tx_time c p))
+  \/ (exists p dl, starts o = [] /\ forwards o = [p] /\ child_tx s = Some (p, dl) /\ dl == mnow s' /\ child_tx s' = None)
+  \/ (starts o = [] /\ forwards o = [] /\ child_tx s' = child_tx s /\
+      match child_tx s with Some (_, dl) => mnow s' <= dl | None => True end).
+Proof.
+  intros R I H. pose proof (inv_step c ins outs s a s' o R I H) as [C' _].
+  assert (Hb : child_tx s' = child_tx s -> match child_tx s with Some (_, dl) => mnow s' <= dl | None => True end).
+  { intros E. rewrite <- E. unfold child_tx. destruct (mchild s') eqn:Ch; auto. apply (i_dl _ _ _ _ C' _ _ Ch). }
+  destruct (runs_loop a) eqn:Ra.
+  - right. right. destruct (resume_site c ins outs s a s' o I H Ra) as (s0 & C0 & M0 & Rs & _).
+    assert (Ech : child_tx s' = None).
+    { unfold child_tx. rewrite (resume_child _ _ _ _ _ Rs), (m_child _ M0). reflexivity. }
+    assert (Ech0 : child_tx s = None).
+    { destruct I as [C Sh]. pose proof (i_child _ Sh) as Hc. unfold child_tx.
+      destruct a as [p| |[f|]|[f|]| | | |t|incl]; try discriminate; cbn in H.
+      - destruct (mpc s); try discriminate. rewrite Hc. reflexivity.
+      - destruct (mpc s); try discriminate. rewrite Hc. reflexivity.
+      - destruct (mchild s); try discriminate; reflexivity. }
+    split; [apply starts_visits; intros; eapply resume_only_visits; eauto|].
+    split; [apply forwards_visits; intros; eapply resume_only_visits; eauto|].
+    split; [congruence|]. rewrite Ech0. exact Logic.I.
+  - destruct a as [p| |[f|]|[f|]| | | |t|incl]; try discriminate; cbn in H.
+    + destruct (memZ (flow p) (flows c) && (0 <=? psize p)%Z); [|discriminate]. injection H as <- <-.
+      right. right. split; [reflexivity|split; [reflexivity|]]. split; [reflexivity|]. apply Hb. reflexivity.
+    + destruct (sq_cb fifo_pop (mstores s f)); [|discriminate]. injection H as <- <-.
+      right. right. split; [reflexivity|split; [reflexivity|]]. split; [reflexivity|]. apply Hb. reflexivity.
+    + destruct (sq_cb fifo_pop (mtok s)); [|discriminate]. injection H as <- <-.
+      right. right. split; [reflexivity|split; [reflexivity|]]. split; [reflexivity|]. apply Hb. reflexivity.
+    + destruct (mpc s) as [|g rem|rem| |] eqn:P; try discriminate. destruct (mchild s) eqn:Ch; try discriminate.
+      destruct (f =? g)%Z; [|discriminate]. destruct (sq_take (mstores s f)) as [[[a p] q]|]; [|discriminate].
+      injection H as <- <-. right. right. unfold child_tx. cbn. rewrite Ch. auto.
+    + destruct (mchild s) eqn:Ch; try discriminate. injection H as <- <-.
+      left. exists p. unfold child_tx. cbn. rewrite Ch. auto.
+    + destruct (mchild s) eqn:Ch; try discriminate. destruct (Qeq_bool dl (mnow s)) eqn:E; [|discriminate]. injection H as <- <-.
+      right. left. exists p, dl. unfold child_tx. cbn. rewrite Ch. apply Qeq_bool_iff in E. auto.
+    + destruct (urgent c s); [discriminate|]. destruct (Qlt_le_dec (mnow s) t); [|discriminate].
+      assert (E : o = [] /\ mchild s' = mchild s).
+      { destruct (mchild s); try (injection H as <- <-; split; reflexivity).
+        destruct (Qle_bool t dl); [|discriminate]. injection H as <- <-. split; reflexivity. }
+      destruct E as [-> Ech]. right. right. split; [reflexivity|split; [reflexivity|]].
+      assert (Ec : child_tx s' = child_tx s) by (unfold child_tx; rewrite Ech; reflexivity). split; [exact Ec|apply Hb; exact Ec].
+    + injection H as <- <-. right. right. split; [reflexivity|split; [reflexivity|]]. split; [reflexivity|]. apply Hb. reflexivity.
+Qed.
+
+Theorem tx_wf_run c : 0 < rate c -> forall acts s ins outs s' tr,
+  Inv c ins outs s -> mq_run c s acts = Some (s', tr) -> tx_wf c (child_tx s) tr.
+Proof.
+  intros R. induction acts as [|a rest IH]; intros s ins outs s' tr I H; cbn in H.
+  - injection H as <- <-. exact Logic.I.
+  - destruct (mq_act c s a) as [[s1 o]|] eqn:A; [|discriminate].
+    destruct (mq_run c s1 rest) as [[s2 tr']|] eqn:Rn; [|discriminate]. injection H as <- <-.
+    pose proof (inv_step c ins outs s a s1 o R I A) as I1.
+    specialize (IH s1 _ _ _ _ I1 Rn). cbn [tx_wf].
+    destruct (tx_step c ins outs s a s1 o R I A) as [(p & Es & Ef & E0 & E1)|[(p & dl & Es & Ef & E0 & Ed & E1)|(Es & Ef & E1 & Hb)]];
+      rewrite Es, Ef.
+    + split; [exact E0|]. rewrite <- E1. exact IH.
+    + split; [exists dl; auto|]. rewrite <- E1. exact IH.
+    + split; [exact Hb|]. rewrite <- E1. exact IH.
+Qed.
+
+(* ---------------------------------------------------------------------------------------------- *)
+(* conservation, per-flow FIFO, counters: statements on executions from the initial state *)
+
+Theorem run_conserves c acts s tr :
+  0 < rate c -> mq_run c (mq0 c) acts = Some (s, tr) ->
+  (forall f, filter (is_flow f) (tr_puts tr) = filter (is_flow f) (tr_fwds tr) ++ held_flow s f)
+  /\ (forall p, In p (tr_puts tr) -> In (flow p) (flows c)).
+Proof.
+  intros R H. destruct (inv_run c R acts (mq0 c) [] [] s tr (inv0 c) H) as [C _]. cbn in C. split.
+  - apply (i_cons _ _ _ _ C).
+  - intros p Hp. apply (i_ins _ _ _ _ C p Hp).
+Qed.
+
+Lemma recv_run c : forall acts s0 s tr, mq_run c s0 acts = Some (s, tr) ->
+  mrecv s = (mrecv s0 + Z.of_nat (length (tr_puts tr)))%Z.
+Proof.
+  induction acts as [|a rest IH]; intros s0 s tr H; cbn in H.
+  - injection H as <- <-. cbn. lia.
+  - destruct (mq_act c s0 a) as [[s1 o]|] eqn:A; [|discriminate].
+    destruct (mq_run c s1 rest) as [[s2 tr']|] eqn:Rn; [|discriminate]. injection H as <- <-.
+    rewrite (IH _ _ _ Rn). unfold tr_puts. cbn [flat_map fst snd]. rewrite app_length.
+    assert (E : mrecv s1 = (mrecv s0 + Z.of_nat (length (puts a)))%Z).
+    { assert (Rr : forall x rem y vs, resume c x rem = Some (y, vs) -> mrecv y = mrecv x).
+      { intros x rem y vs. unfold resume, end_pass, commit.
+        destruct (scan (nonempty c x) rem) as [vs0 [[f rem']|]].
+        - destruct (sq_get fifo_pop (mstores x f)); [|discriminate]. intros E; injection E as <- <-. reflexivity.
+        - destruct (mtotal x =? 0)%Z.
+          + destruct (sq_get fifo_pop (mtok x)); [|discriminate]. intros E; injection E as <- <-. reflexivity.
+          + destruct (scan (nonempty c x) (pass c)) as [vs1 [[f rem']|]].
+            * destruct (sq_get fifo_pop (mstores x f)); [|discriminate]. intros E; injection E as <- <-. reflexivity.
+            * intros E; injection E as <- <-. reflexivity. }
+      destruct a as [p| |[f|]|[f|]| | | |t|incl]; cbn in A; cbn [puts length].
+      - destruct (memZ (flow p) (flows c) && (0 <=? psize p)%Z); [|discriminate]. injection A as <- <-. cbn. lia.
+      - destruct (mpc s0); try discriminate. rewrite (Rr _ _ _ _ A). lia.
+      - destruct (sq_cb fifo_pop (mstores s0 f)); [|discriminate]. injection A as <- <-. cbn. lia.
+      - destruct (sq_cb fifo_pop (mtok s0)); [|discriminate]. injection A as <- <-. cbn. lia.
+      - destruct (mpc s0); try discriminate. destruct (mchild s0); try discriminate. destruct (f =? f0)%Z; [|discriminate].
+        destruct (sq_take (mstores s0 f)) as [[[a p] q]|]; [|discriminate]. injection A as <- <-. cbn. lia.
+      - destruct (mpc s0); try discriminate. destruct (sq_take (mtok s0)) as [[x q]|]; [|discriminate].
+        rewrite (Rr _ _ _ _ A). cbn. lia.
+      - destruct (mchild s0); try discriminate. injection A as <- <-. cbn. lia.
+      - destruct (mchild s0); try discriminate. destruct (Qeq_bool dl (mnow s0)); [|discriminate]. injection A as <- <-. cbn. lia.
+      - destruct (mchild s0); try discriminate. destruct (mpc s0); try discriminate.
+        rewrite (Rr _ _ _ _ A). cbn. lia.
+      - destruct (urgent c s0); [discriminate|]. destruct (Qlt_le_dec (mnow s0) t); [|discriminate].
+        destruct (mchild s0); try (injection A as <- <-; cbn; lia). destruct (Qle_bool t dl); [|discriminate]. injection A as <- <-; cbn; lia.
+      - injection A as <- <-. lia. }
+    rewrite E. lia.
+Qed.
+
+Theorem run_counters c acts s tr :
+  0 < rate c -> mq_run c (mq0 c) acts = Some (s, tr) ->
+  (forall f, mqc s f = Z.of_nat (length (held_flow s f)) /\ mqb s f = sumsz (held_flow s f))
+  /\ mtotal s = zsum (fun f => Z.of_nat (length (held_flow s f))) (dflows c)
+  /\ mcur s = match mchild s with CTx p _ => Some p | _ => None end
+  /\ mrecv s = Z.of_nat (length (tr_puts tr)).
+Proof.
+  intros R H. destruct (inv_run c R acts (mq0 c) [] [] s tr (inv0 c) H) as [C _]. cbn in C.
+  split; [intros f; split; [apply (i_qc _ _ _ _ C)|apply (i_qb _ _ _ _ C)]|].
+  split; [rewrite (i_tot _ _ _ _ C); apply zsum_ext; intros f; apply (i_qc _ _ _ _ C)|].
+  split; [apply (i_cur _ _ _ _ C)|].
+  rewrite (recv_run c _ _ _ _ H). cbn. lia.
+Qed.
